@@ -10,12 +10,17 @@ C17 ops
   slot    {t:{int|float}, dt:{int|float}, saveStep} -> {slot: int|null}
   weights {x:[…]} -> {w:[…]}
 C18 ops
-  roundtrip {ext, ord, psW, psR, coordsR}  -> {blocks:[[flat global offsets read by each reader]]}
-  names     {times:[…]}                    -> {names:[…], latest: string|null, parsed: int|null, by_numeric: int|null}
+  roundtrip {dimsW:[[n,p]…], dimsR:[[n,p']…], order:[[c…]…], readers:[[c'…]…]}
+            -> {blocks:[[what each reader gets, C order: global flat offset | null (never written)]], shapes:[[…]]}
+  names     {folder, conv, times:[…]} -> {names:[…], latest: string|null, time: int|null}
+  loop      {program:{pre,cond,body,post} (TimeLoop.json), saveStep, tEnd, dt, loadable, fileTime, clock:[bool…], fuel}
+            -> {t, ti, tN, nLoops, startPrint, crashed, events:[["ckpt",isPhi,t] | ["collect",t] | ["reduce"] | ["lines",lo,hi]]}
+  constants {data:[[key, null | [dep…]]…]}  (file order; null = literal, list = string expression over these keys)
+            -> {ok: bool, sweeps: [[keys resolved in sweep 1], …]}
 -/
 import PygyroVerif.DriverUtil
 import PygyroVerif.Model.Diagnostics
--- import PygyroVerif.Model.Checkpoint
+import PygyroVerif.Model.Checkpoint
 import Mathlib.Algebra.Order.Field.Rat
 
 open Lean PygyroVerif PygyroVerif.DriverUtil PygyroVerif.Diag
@@ -111,9 +116,191 @@ def handleC17 (op : String) (j : Json) : R Json := do
     pure <| obj [("w", jRats ((List.range x.length).map (trapMult (fnR x) x.length)))]
   | _ => throw s!"unknown op {op}"
 
+/-! ### C18 -/
+
+open PygyroVerif.Ckpt
+
+def pairList (j : Json) (k : String) : R (List (Nat × Nat)) := do
+  let l ← fList natList j k
+  l.mapM fun p => match p with
+    | [a, b] => pure (a, b)
+    | _ => throw s!"{k}: entries are pairs"
+
+/-- all local indices of a block, C order -/
+def boxIdx : List Nat → List (List Nat)
+  | [] => [[]]
+  | n :: ns => (List.range n).flatMap fun i => (boxIdx ns).map (i :: ·)
+
+def varOf (s : String) : R Var :=
+  match s with
+  | "t" => pure .t | "ti" => pure .ti | "tN" => pure .tN | "nLoops" => pure .nLoops | "startPrint" => pure .startPrint
+  | "saveStep" => pure .saveStep | "saveStepCut" => pure .saveStepCut | "tEnd" => pure .tEnd | "dt" => pure .dt
+  | _ => throw s!"unknown variable {s}"
+
+partial def exprOf (j : Json) : R Ckpt.Expr := do
+  let a ← arrOf j
+  let k ← strOf (a.getD 0 Json.null)
+  match k with
+  | "var" => pure (.var (← varOf (← strOf (a.getD 1 Json.null))))
+  | "lit" => pure (.lit (← intOf (a.getD 1 Json.null)))
+  | _ =>
+    let x ← exprOf (a.getD 1 Json.null)
+    let y ← exprOf (a.getD 2 Json.null)
+    match k with
+    | "add" => pure (.add x y) | "sub" => pure (.sub x y) | "mul" => pure (.mul x y)
+    | "fdiv" => pure (.fdiv x y) | "fmod" => pure (.fmod x y) | "min" => pure (.min x y) | "max" => pure (.max x y)
+    | _ => throw s!"unknown expression {k}"
+
+partial def condOf (j : Json) : R Cond := do
+  let a ← arrOf j
+  let k ← strOf (a.getD 0 Json.null)
+  match k with
+  | "loadable" => pure .loadable
+  | "notLoadable" => pure .notLoadable
+  | "timeForLoop" => pure .timeForLoop
+  | "and" => pure (.and (← condOf (a.getD 1 Json.null)) (← condOf (a.getD 2 Json.null)))
+  | "lt" => pure (.lt (← exprOf (a.getD 1 Json.null)) (← exprOf (a.getD 2 Json.null)))
+  | "eq" => pure (.eq (← exprOf (a.getD 1 Json.null)) (← exprOf (a.getD 2 Json.null)))
+  | "ne" => pure (.ne (← exprOf (a.getD 1 Json.null)) (← exprOf (a.getD 2 Json.null)))
+  | _ => throw s!"unknown condition {k}"
+
+def objOf (j : Json) : R Obj := do
+  match (← strOf j) with
+  | "distribFunc" => pure .distribFunc | "phi" => pure .phi | "rho" => pure .rho
+  | s => throw s!"unknown object {s}"
+
+def layOf (j : Json) : R Lay := do
+  match (← strOf j) with
+  | "flux_surface" => pure .flux_surface | "v_parallel" => pure .v_parallel | "poloidal" => pure .poloidal
+  | "v_parallel_2d" => pure .v_parallel_2d | "mode_solve" => pure .mode_solve | "v_parallel_1d" => pure .v_parallel_1d
+  | s => throw s!"unknown layout {s}"
+
+def stpOf (j : Json) : R Stp := do
+  match (← strOf j) with
+  | "halfStep" => pure .halfStep | "fullStep" => pure .fullStep
+  | s => throw s!"unknown step {s}"
+
+def callOf (j : Json) : R Call := do
+  let a ← arrOf j
+  let k ← strOf (a.getD 0 Json.null)
+  let x := a.getD 1 Json.null
+  let y := a.getD 2 Json.null
+  let z := a.getD 3 Json.null
+  match k with
+  | "setLayout" => pure (.setLayout (← objOf x) (← layOf y))
+  | "saveGridValues" => pure (.saveGridValues (← objOf x))
+  | "restoreGridValues" => pure (.restoreGridValues (← objOf x))
+  | "fluxStep" => pure (.fluxStep (← objOf x))
+  | "vParStep" => pure (.vParStep (← objOf x) (← objOf y) (← stpOf z))
+  | "vParStepKeep" => pure (.vParStepKeep (← objOf x) (← stpOf y))
+  | "polStep" => pure (.polStep (← objOf x) (← objOf y) (← stpOf z))
+  | "perturbedRho" => pure (.perturbedRho (← objOf x) (← objOf y))
+  | "getModes" => pure (.getModes (← objOf x))
+  | "solveEquation" => pure (.solveEquation (← objOf x) (← objOf y))
+  | "findPotential" => pure (.findPotential (← objOf x))
+  | "collect" => pure (.collect (← objOf x) (← objOf y))
+  | "reduce" => pure .reduce
+  | "writeH5" => pure (.writeH5 (← objOf x) (← boolOf y))
+  | _ => throw s!"unknown call {k}"
+
+def simpleOf (j : Json) : R Simple := do
+  let a ← arrOf j
+  let k ← strOf (a.getD 0 Json.null)
+  match k with
+  | "assign" => pure (.assign (← varOf (← strOf (a.getD 1 Json.null))) (← exprOf (a.getD 2 Json.null)))
+  | "call" => pure (.call (← callOf (a.getD 1 Json.null)))
+  | "printLines" => pure (.printLines (← exprOf (a.getD 1 Json.null)) (← exprOf (a.getD 2 Json.null)))
+  | "divBy" => pure (.divBy (← exprOf (a.getD 1 Json.null)))
+  | "pollTime" => pure .pollTime
+  | "setupFromFile" => pure .setupFromFile
+  | "setupNew" => pure .setupNew
+  | "allocPhi" => pure .allocPhi
+  | "allocRho" => pure .allocRho
+  | "allocParGradVals" => pure .allocParGradVals
+  | _ => throw s!"unknown statement {k}"
+
+def stmtOf (j : Json) : R Stmt := do
+  let a ← arrOf j
+  let k ← strOf (a.getD 0 Json.null)
+  match k with
+  | "s" => pure (.s (← simpleOf (a.getD 1 Json.null)))
+  | "ifc" => pure (.ifc (← condOf (a.getD 1 Json.null)) (← listOf simpleOf (a.getD 2 Json.null)))
+  | _ => throw s!"unknown statement {k}"
+
+def programOf (j : Json) : R Program := do
+  pure { pre := ← fList stmtOf j "pre", cond := ← condOf (← field j "cond"),
+         body := ← fList stmtOf j "body", post := ← fList stmtOf j "post" }
+
+def jEvent : Event → Json
+  | .ckpt p t => Json.arr #[Json.str "ckpt", Json.bool p, jInt t]
+  | .collect t => Json.arr #[Json.str "collect", jInt t]
+  | .reduce => Json.arr #[Json.str "reduce"]
+  | .lines lo hi => Json.arr #[Json.str "lines", jInt lo, jInt hi]
+
+def handleC18 (op : String) (j : Json) : R Json := do
+  match op with
+  | "roundtrip" =>
+    let dimsW ← pairList j "dimsW"
+    let dimsR ← pairList j "dimsR"
+    let order ← fList natList j "order"
+    let readers ← fList natList j "readers"
+    let ext := dimsW.map (·.1)
+    let G : List Nat → Nat := fun x => ravelIdx x ext
+    let st := writeAll G dimsW order (fun _ => none)
+    let blocks := readers.map fun c =>
+      let blk := blockOf dimsR c
+      (boxIdx (blk.map (·.2))).map fun i => jOptNat (readBlock st blk i)
+    pure <| obj [("blocks", Json.arr (blocks.map (fun b => Json.arr b.toArray)).toArray),
+                 ("shapes", jList jNats (readers.map fun c => (blockOf dimsR c).map (·.2)))]
+  | "names" =>
+    let folder := codes (← fStr j "folder")
+    let conv := codes (← fStr j "conv")
+    let times ← fNatList j "times"
+    let names := times.map (fileName folder conv)
+    let (lat, tm) : Json × Json := match restartChoice names, latest names with
+      | some (f, t), _ => (Json.str (uncodes f), jNat t)
+      | none, some f => (Json.str (uncodes f), Json.null)
+      | none, none => (Json.null, Json.null)
+    pure <| obj [("names", Json.arr (names.map (fun n => Json.str (uncodes n))).toArray), ("latest", lat), ("time", tm)]
+  | "loop" =>
+    let p ← programOf (← field j "program")
+    let clock ← fList boolOf j "clock"
+    let s0 : CState := { t := 0, ti := 0, tN := 0, nLoops := 0, startPrint := 0, saveStep := ← fInt j "saveStep",
+                         saveStepCut := 0, tEnd := ← fInt j "tEnd", dt := ← fInt j "dt", loadable := ← fBool j "loadable",
+                         timeForLoop := true, clock := clock, fileTime := ← fInt j "fileTime", events := [], crashed := false }
+    let s := runC p (← fNat j "fuel") s0
+    pure <| obj [("t", jInt s.t), ("ti", jInt s.ti), ("tN", jInt s.tN), ("nLoops", jInt s.nLoops),
+                 ("startPrint", jInt s.startPrint), ("crashed", Json.bool s.crashed),
+                 ("events", Json.arr (s.events.map jEvent).toArray)]
+  | "constants" =>
+    let arr ← arrOf (← field j "data")
+    let data ← arr.toList.mapM fun e => do
+      let a ← arrOf e
+      let k ← strOf (a.getD 0 Json.null)
+      match a.getD 1 Json.null with
+      | Json.null => pure (k, PVal.lit (0 : Nat))
+      | d => do
+        let deps ← listOf strOf d
+        pure (k, PVal.expr deps (fun _ => (0 : Nat)))
+    -- replay the sweeps, recording which keys are resolved in which sweep
+    let rec go (fuel : Nat) (data : List (String × PVal Nat)) (env : String → Option Nat) (acc : List (List String)) :
+        Bool × List (List String) :=
+      match fuel, data with
+      | _, [] => (true, acc)
+      | 0, _ => (false, acc)
+      | fuel + 1, data =>
+        let (env', unmatched) := sweep data.reverse env []
+        let done := (data.map (·.1)).filter (fun k => !(unmatched.map (·.1)).contains k)
+        if unmatched.length < data.length then go fuel unmatched env' (acc ++ [done]) else (false, acc ++ [done])
+    let (ok, sw) := go (data.length + 1) data (fun _ => none) []
+    let ok2 := (getConstants (data.length + 1) data (fun _ => none)).isSome
+    pure <| obj [("ok", Json.bool (ok && ok2)), ("sweeps", Json.arr (sw.map (fun l => Json.arr (l.map Json.str).toArray)).toArray)]
+  | _ => throw s!"unknown op {op}"
+
 def handle (j : Json) : R Json := do
   let op ← fStr j "op"
   match op with
+  | "roundtrip" | "names" | "constants" | "loop" => handleC18 op j
   | _ => handleC17 op j
 
 def main : IO Unit := serve handle
